@@ -53,6 +53,17 @@ def check_roundtrip(case):
         return Fail('hash/equal-addresses-hash-differently', str(hs))
     if len({base, p, q}) != 1:
         return Fail('hash/set-does-not-collapse', '')
+    # a copy (Address(Address)) of the parsed address, and the address rebuilt from its public parts, render like the original
+    for nm, mk in (('copy-of-parsed', lambda: Address(p)), ('from-parts', lambda: Address((p.wc, p.hash_part))), ('copy-of-raw-parsed', lambda: Address(q))):
+        ok, cp = call(mk)
+        if not ok or not (cp == base) or hash(cp) != hash(base):
+            return Fail(f'copy/{nm}-not-equal', f'{exp}: {cp!r}')
+        ok, txt = call(cp.to_str, True, u, b, t)
+        if not ok or txt != exp:
+            return Fail(f'to_str/{nm}-differs-from-TEP2', f'{txt!r} != {exp}')
+        ok, txt = call(cp.to_str, False)
+        if not ok or txt != refaddr.raw(wc, acc):
+            return Fail(f'to_str/{nm}-raw-differs', f'{txt!r}')
     # re-rendering the parsed address with its own flags gives the same text
     ok, again = call(p.to_str, True, u, p.is_bounceable, p.is_test_only)
     if not ok or again != exp:
